@@ -382,7 +382,7 @@ func VerifC15Representations() {
 	nd.Reach("C15.representations")
 }
 
-var c15DiffFilters = []string{"join: ','", "reverse | join: ','", "sort | join: ','", "uniq | join: ','", "compact | join: ','", "concat: b | join: ','", "first", "last", "size", "sort | first", "reverse | last"}
+var c15DiffFilters = []string{"reverse | first", "compact | size", "uniq | size", "concat: b | size", "join: ','", "reverse | join: ','", "sort | join: ','", "uniq | join: ','", "compact | join: ','", "concat: b | join: ','", "first", "last", "size", "sort | first", "reverse | last"}
 
 // VerifC15RepDiff: typed slices, fixed arrays, ranges and ordered maps give the same result
 // as the generic slice with the same contents, for every array filter.
@@ -391,7 +391,13 @@ func VerifC15RepDiff() {
 	lo := nd.IntIn(-3, 3)
 	x, y := nd.IntIn(-9, 9), nd.IntIn(-9, 9)
 	var canon, other any
-	switch nd.Choice(5) {
+	switch nd.Choice(8) {
+	case 5: // an ordered map with nil values is the array of its values, nils included
+		canon, other = []any{nil, x, nil, y}, yaml.MapSlice{{Key: "p", Value: nil}, {Key: "q", Value: x}, {Key: "r", Value: nil}, {Key: "s", Value: y}}
+	case 6:
+		canon, other = []any{x, nil}, yaml.MapSlice{{Key: "p", Value: x}, {Key: nil, Value: nil}}
+	case 7: // floats and mixed numbers
+		canon, other = []any{2.5, -1.5, 2.5}, []float64{2.5, -1.5, 2.5}
 	case 0:
 		canon, other = []any{x, y, lo}, []int{x, y, lo}
 	case 1:
@@ -411,4 +417,92 @@ func VerifC15RepDiff() {
 		nd.Assert(values.Equal(v1, v2), "representation-same-result")
 	}
 	nd.Reach("C15.repdiff")
+}
+
+// c15Num returns the k-th number of a small mixed universe (ints and non-integral floats of both
+// signs, different widths) with its value as a float64.
+func c15Num(k int) (any, float64) {
+	switch k {
+	case 0:
+		return -2, -2
+	case 1:
+		return -1.5, -1.5
+	case 2:
+		return -1, -1
+	case 3:
+		return -0.5, -0.5
+	case 4:
+		return 0, 0
+	case 5:
+		return 0.5, 0.5
+	case 6:
+		return int8(1), 1
+	case 7:
+		return float32(1.5), 1.5
+	case 8:
+		return uint8(2), 2
+	}
+	return 2.5, 2.5
+}
+
+// VerifC15SortMixed: sort orders numbers by numeric value whatever mix of integers and floats the
+// array holds (plain and by key), and returns a permutation.
+func VerifC15SortMixed() {
+	l := 2 + nd.Choice(2)
+	keyed := nd.Choice(2) == 1
+	a := make([]any, l)
+	fs := make([]float64, l)
+	for i := 0; i < l; i++ {
+		v, f := c15Num(nd.Choice(10))
+		fs[i] = f
+		if keyed {
+			a[i] = map[string]any{"w": v}
+		} else {
+			a[i] = v
+		}
+	}
+	src := "a | sort"
+	if keyed {
+		src = "a | sort: 'w' | map: 'w'"
+	}
+	v, err := fEval(src, map[string]any{"a": a})
+	nd.Assert(err == nil, "sort-mixed-no-error")
+	out, ok := c15AsSlice(v)
+	nd.Assert(ok && len(out) == l, "sort-mixed-length")
+	if !ok || len(out) != l {
+		return
+	}
+	of := make([]float64, l)
+	for i := range out {
+		switch x := out[i].(type) {
+		case int:
+			of[i] = float64(x)
+		case int8:
+			of[i] = float64(x)
+		case uint8:
+			of[i] = float64(x)
+		case float32:
+			of[i] = float64(x)
+		case float64:
+			of[i] = x
+		default:
+			nd.Assert(false, "sort-mixed-element-kind")
+		}
+	}
+	for i := 0; i+1 < l; i++ {
+		nd.Assert(of[i] <= of[i+1], "sort-mixed-ascending")
+	}
+	for i := 0; i < l; i++ {
+		cin, cout := 0, 0
+		for j := 0; j < l; j++ {
+			if fs[j] == fs[i] {
+				cin++
+			}
+			if of[j] == fs[i] {
+				cout++
+			}
+		}
+		nd.Assert(cin == cout, "sort-mixed-permutation")
+	}
+	nd.Reach("C15.sortmixed")
 }
